@@ -8,9 +8,10 @@
     {"op":"io","e":"abort","id":i,"tok":t}
     {"op":"io","e":"confirm","addr":a,"kind":"ack|err|other","tok":t}
     {"op":"io","e":"deferred"}
+    {"op":"io","e":"arm","script":[{"o":"submit","dest":a,"prio":p,"unconf":b,"fails":b}|{"o":"abort","id":i,"tok":t},…]}
   reply
     {"r":"ok","out":[…],"io":[[st,ctrl,inq,resp,err],…],"q":[[addr,qid,busy,active,[[p,id],…]],…],
-     "def":[qid,…],"br":"…"}
+     "def":[qid,…],"scr":n,"br":"…"}
 -/
 import BacVerif.Drv.TsmDrv
 import BacVerif.Model.Iocb
@@ -31,6 +32,12 @@ def jQ (aq : Addr × Q) : Json :=
   Json.arr #[Json.num aq.1, Json.num aq.2.qid, jB aq.2.busy, jNatOpt aq.2.active,
     Json.arr (aq.2.queue.map fun (p, i) => Json.arr #[Json.num p, Json.num i]).toArray]
 
+def cbOpOfJson (j : Json) : R CbOp := do
+  match ← fldStr j "o" with
+  | "submit" => pure (.submit (← fldNat j "dest") (← fldNat j "prio") (fldB j "unconf") (fldB j "fails"))
+  | "abort" => pure (.abort (← fldNat j "id") (← fldNat j "tok"))
+  | o => throw s!"unknown callback operation {o}"
+
 def evOfJson (j : Json) : R Ev := do
   match ← fldStr j "e" with
   | "submit" => pure (.submit (← fldNat j "dest") (← fldNat j "prio") (fldB j "unconf") (fldB j "fails"))
@@ -41,6 +48,7 @@ def evOfJson (j : Json) : R Ev := do
       | k => throw s!"unknown confirmation kind {k}"
     pure (.confirm (← fldNat j "addr") k (← fldNat j "tok"))
   | "deferred" => pure .runDeferred
+  | "arm" => pure (.arm (← (← fldArr j "script").toList.mapM cbOpOfJson))
   | e => throw s!"unknown io event {e}"
 
 /-- coverage signature: event kind, what the addressed queue looked like, output kinds -/
@@ -64,9 +72,13 @@ def brIo (s : Iocb.St) (e : Ev) (outs : List Iocb.Out) : String :=
         match findQ s.queues q with
         | none => "deferred:dead"
         | some x => s!"deferred:{if x.busy then "B" else "I"}{min x.queue.length 2}"
+    | .arm sc => s!"arm{min sc.length 3}"
   let os := String.join (outs.map fun o => match o with
     | .sent _ => "s" | .callback _ st _ _ => s!"c{st.code}" | .raised _ => "!")
-  s!"{tag}:{os}"
+  -- re-entrancy: a script is armed and a callback fires in this event
+  let re := if !s.script.isEmpty && outs.any (fun o => match o with | .callback .. => true | _ => false)
+            then s!"R{min s.script.length 3}" else ""
+  s!"{tag}:{os}:{re}"
 
 structure State where
   tsm : DrvState := {}
@@ -82,6 +94,7 @@ def handle (st : State) (j : Json) : R (State × Json) := do
                       ("io", Json.arr (s'.iocbs.map jIocb).toArray),
                       ("q", Json.arr (s'.queues.map jQ).toArray),
                       ("def", Json.arr (s'.deferred.map fun (n : Nat) => Json.num n).toArray),
+                      ("scr", Json.num s'.script.length),
                       ("br", Json.str (brIo st.io e outs))]
     pure ({ st with io := s' }, reply)
   | _ =>
